@@ -9,4 +9,5 @@ trap 'git -C /repo worktree remove --force "$WT" >/dev/null 2>&1; rm -rf "$WT"' 
 git -C "$WT" apply "$PATCH"
 cd "$(dirname "$0")/.."
 set +e
-VERIF_REPO="$WT" VERIF_SEED=$SEED VERIF_EVIDENCE_DIR="$WT/.evidence" /venv/bin/python -B run_check.py "$PROP" "$TIER" 2>&1 | grep -v "^  " | cut -c1-300 | tail -${LINES_OUT:-8}
+VERIF_REPO="$WT" VERIF_SEED=$SEED VERIF_EVIDENCE_DIR="$WT/.evidence" timeout -k 5 ${MUT_TIMEOUT:-1800} /venv/bin/python -B run_check.py "$PROP" "$TIER" > "$WT/.out" 2>&1 < /dev/null
+grep -v "^  " "$WT/.out" | cut -c1-300 | tail -${LINES_OUT:-8}
